@@ -24,6 +24,7 @@ func traceCmd(args []string) {
 	linesFile := fs.String("lines", "", "file with batch lines")
 	seed := fs.Uint64("seed", 1, "seed")
 	waterEvery := fs.Int("water-every", 25, "emit about one Water transition in this many")
+	nEvery := fs.Int("nitro-every", 0, "emit about one mineral/nmove transition in this many (0 = none)")
 	fs.Parse(args)
 	defer stdout.Flush()
 	r := newRng(*seed)
@@ -38,10 +39,13 @@ func traceCmd(args []string) {
 		if len(line) == 0 {
 			continue
 		}
+		nitroEvery = *nEvery
 		traceLine(*work, line, lineNo, r, *waterEvery)
 		lineNo++
 	}
 }
+
+var nitroEvery int
 
 type dayAcc struct {
 	zeit                       int
@@ -52,6 +56,25 @@ type dayAcc struct {
 	excluded                   bool
 	grw0                       float64
 	wgStart                    [21]float64
+	// nitrogen budget of the day (from the "evatra-pre" probe to "dayend")
+	nC1, nAufna, nMin, nUms, nN2o, nOut, nDrain, nDenit float64
+	nMinC1                                              float64
+	nUnstable                                           bool
+}
+
+var prevDayEndC1 = math.NaN()
+var prevDayEndZeit = -1
+
+func nsum(g *hermes.GlobalVarsMain) (c1, minp, minC1 float64) {
+	minC1 = math.Inf(1)
+	for i := 0; i < g.N; i++ {
+		c1 += g.C1[i]
+		minC1 = math.Min(minC1, g.C1[i])
+	}
+	for i := 0; i < len(g.MINAOS); i++ {
+		minp += g.MINAOS[i] + g.MINFOS[i]
+	}
+	return
 }
 
 func storage(g *hermes.GlobalVarsMain, which int) float64 {
@@ -63,7 +86,8 @@ func storage(g *hermes.GlobalVarsMain, which int) float64 {
 }
 
 func traceLine(work, line string, lineNo int, r *rng, waterEvery int) {
-	var day dayAcc
+	var day, nday dayAcc
+	prevDayEndZeit = -1
 	var pre struct {
 		g  hermes.GlobalVarsMain
 		l  hermes.WaterSharedVars
@@ -72,6 +96,42 @@ func traceLine(work, line string, lineNo int, r *rng, waterEvery int) {
 	days, sub := 0, 0
 	hermes.VerifProbe = func(stage string, zeit, subd int, wdt float64, g *hermes.GlobalVarsMain, w *hermes.WaterSharedVars, n *hermes.NitroSharedVars) {
 		switch stage {
+		case "evatra-pre":
+			c1, minp, minC1 := nsum(g)
+			nday = dayAcc{nC1: c1, nAufna: g.AUFNASUM, nMin: minp, nUms: g.UMS, nN2o: g.N2onitsum, nOut: g.OUTSUM, nDrain: g.DRAINLOSS, nDenit: g.CUMDENIT, nMinC1: minC1}
+			// deposition / irrigation N since yesterday's end of day (C02)
+			meas := false
+			for _, m := range g.MESS {
+				if m == zeit && m != 0 {
+					meas = true
+				}
+			}
+			if prevDayEndZeit == zeit-1 && !meas {
+				d := c1 - prevDayEndC1
+				dep := g.DEPOS / 365 * g.DT.Num
+				if g.EffectiveIRRIG == 0 && math.Abs(d-dep) > 1e-9*(1+math.Abs(c1)) {
+					oracleFail("deposition line=%d zeit=%d delta=%v expected=%v", lineNo, zeit, d, dep)
+				}
+				if g.EffectiveIRRIG > 0 && d < dep-1e-9*(1+math.Abs(c1)) {
+					oracleFail("irrigation-n line=%d zeit=%d delta=%v deposition=%v", lineNo, zeit, d, dep)
+				}
+			}
+		case "nitro-pre":
+			if nitroEvery > 0 && (r.intn(nitroEvery) == 0 || (subd > 1 && r.intn(3) == 0)) {
+				gg, ll := *g, *n
+				if subd == 1 {
+					mineralCase("trace", &gg, &ll)
+				}
+				nmoveCase("trace", &gg, &ll, wdt, subd, zeit)
+			}
+		case "nitro":
+			if g.C1NotStable != "" {
+				nday.nUnstable = true
+			}
+			if nitroEvery > 0 && subd == day.steps && g.BART[0][0] != 'H' && r.intn(nitroEvery*2) == 0 {
+				gg := *g
+				denitCase("trace", &gg)
+			}
 		case "evatra":
 			day = dayAcc{zeit: zeit, s0: storage(g, 0), fluss0: g.FLUSS0, grw0: g.GRW}
 			day.wgStart = g.WG[0]
@@ -106,6 +166,24 @@ func traceLine(work, line string, lineNo int, r *rng, waterEvery int) {
 			day.sumWdt += wdt
 		case "dayend":
 			days++
+			{
+				c1, minp, minC1 := nsum(g)
+				dC1 := c1 - nday.nC1
+				rhs := -(g.AUFNASUM - nday.nAufna) + (minp - nday.nMin) + (g.UMS - nday.nUms) - (g.N2onitsum - nday.nN2o) -
+					(g.OUTSUM - nday.nOut) - (g.DRAINLOSS - nday.nDrain) - (g.CUMDENIT - nday.nDenit)
+				res := dC1 - rhs
+				scale := math.Abs(c1) + math.Abs(g.AUFNASUM-nday.nAufna) + math.Abs(g.OUTSUM-nday.nOut) + math.Abs(minp-nday.nMin)
+				clean := minC1 >= 1 && nday.nMinC1 >= 1 && !nday.nUnstable
+				emit(jobj{"k": "nday", "line": lineNo, "zeit": zeit, "res": res, "clean": clean, "outn_bottom": g.OUTN == g.N, "unstable": nday.nUnstable, "steps": day.steps})
+				if g.OUTN == g.N && g.N >= 2 && !g.AUTOFERT {
+					if !(res >= -1e-8*(1+scale)) {
+						oracleFail("n-balance-loss line=%d zeit=%d steps=%d residual=%g", lineNo, zeit, day.steps, res)
+					} else if clean && !(res <= 1e-8*(1+scale)) {
+						oracleFail("n-balance-gain line=%d zeit=%d steps=%d residual=%g", lineNo, zeit, day.steps, res)
+					}
+				}
+				prevDayEndC1, prevDayEndZeit = c1, zeit
+			}
 			s1 := storage(g, 1)
 			expect := day.s0 + day.fluss0*day.sumWdt - day.sumTP - day.sumQ - day.sumQD
 			res := s1 - expect
@@ -130,8 +208,18 @@ func traceLine(work, line string, lineNo int, r *rng, waterEvery int) {
 					oracleFail("wg-below-dryness-limit line=%d zeit=%d layer=%d start=%v end=%v limit=%v steps=%d", lineNo, zeit, i+1, day.wgStart[i], wg, g.WMIN[i]/3, day.steps)
 				}
 			}
-			if p := firstNonFinite(reflect.ValueOf(g).Elem(), "g", 0); p != "" {
-				oracleFail("state-not-finite line=%d zeit=%d field=%s", lineNo, zeit, p)
+			// cheap check of the core state every day, full reflection walk over every float of the state every 16th day
+			core := [][]float64{g.WG[0][:g.N], g.WG[1][:g.N], g.C1[:g.N], g.TD[:g.N], g.TSOIL[0][:g.N], g.NAOS[:4], g.NFOS[:4], g.WORG[:],
+				{g.LAI, g.OBMAS, g.WUMAS, g.PESUM, g.ASPOO, g.GEHOB, g.WUGEH, g.FLUSS0, g.ETA, g.SICKER, g.CAPSUM, g.OUTSUM, g.UMS, g.DSUMM, g.GRW, g.REDUK, g.TRREL}}
+			for ci, arr := range core {
+				if !finite(arr...) {
+					oracleFail("state-not-finite line=%d zeit=%d field=core-group-%d", lineNo, zeit, ci)
+				}
+			}
+			if days%16 == 1 {
+				if p := firstNonFinite(reflect.ValueOf(g).Elem(), "g", 0); p != "" {
+					oracleFail("state-not-finite line=%d zeit=%d field=%s", lineNo, zeit, p)
+				}
 			}
 			if !day.excluded {
 				if !(math.Abs(res) <= 1e-9*(1+scale)) {
